@@ -21,5 +21,6 @@ Conforms(in, obs) ==
 
 Describe(in) == [m |-> Expected(in)]
 
+Beyond(in) == FALSE
 INSTANCE TraceCheck
 =============================================================================
